@@ -1,7 +1,7 @@
 (* Proofs about Model/Ranges.v: get_ranges never raises and returns only slices inside the
    file; the Range arm of serve_file sends exactly those bytes. *)
 From Coq Require Import List ZArith NArith Bool Lia ZifyBool.
-From Circ Require Import Model.StaticPath Model.Ranges.
+From Circ Require Import Model.StaticPath Model.Ranges Proofs.StaticPathP.
 Import ListNotations.
 Open Scope Z_scope.
 
@@ -32,8 +32,8 @@ Lemma parse_spec_digits : forall b s e, parse_spec b = Some (s, e) ->
   all_digits s = true /\ all_digits e = true.
 Proof.
   intros b s e H. unfold parse_spec in H.
-  destruct (partition_at DASH b) as [[l r]|]; [|discriminate].
-  destruct (all_digits (strip_ws l) && all_digits (strip_ws r)) eqn:E; [|discriminate].
+  destruct (partition_at DASH (strip_ws b)) as [[l r]|]; [|discriminate].
+  destruct (all_digits l && all_digits r) eqn:E; [|discriminate].
   inversion H; subst. apply andb_true_iff in E. assumption.
 Qed.
 
@@ -168,4 +168,154 @@ Proof.
     split; [reflexivity|]. split; [assumption|]. split.
     + rewrite <- (map_length fst ps), Hm. simpl. lia.
     + rewrite Hm. assumption.
+Qed.
+
+(* ---------- exactness: a well-formed single spec yields exactly the requested slice ---------- *)
+
+Lemma digit_facts : forall c, is_digit c = true ->
+  is_ws c = false /\ (c =? DASH)%N = false /\ (c =? COMMA)%N = false /\ (c =? EQ)%N = false.
+Proof.
+  intros c H. unfold is_digit in H. apply andb_true_iff in H as [H1 H2].
+  apply N.leb_le in H1, H2. unfold is_ws, DASH, COMMA, EQ.
+  repeat split;
+    repeat match goal with
+           | |- (_ || _)%bool = false => apply orb_false_iff; split
+           | |- (_ && _)%bool = false => apply andb_false_iff
+           end;
+    try (apply N.eqb_neq; lia);
+    try (left; apply N.leb_gt; lia); try (right; apply N.leb_gt; lia).
+Qed.
+
+Lemma partition_digits : forall d ds rest, all_digits ds = true ->
+  (forall c, is_digit c = true -> (c =? d)%N = false) ->
+  partition_at d (ds ++ d :: rest) = Some (ds, rest).
+Proof.
+  intros d ds rest H Hd. induction ds as [|c ds IH]; simpl.
+  - rewrite N.eqb_refl. reflexivity.
+  - simpl in H. apply andb_true_iff in H as [Hc Hs]. rewrite (Hd c Hc), (IH Hs). reflexivity.
+Qed.
+
+Lemma split_no_delim : forall d s, (forall c, In c s -> (c =? d)%N = false) -> split_on d s = [s].
+Proof.
+  intros d s H. apply split_on_id. intro I. apply H in I. rewrite N.eqb_refl in I. discriminate.
+Qed.
+
+Lemma strip_ws_nows : forall s, (forall c, In c s -> is_ws c = false) -> strip_ws s = s.
+Proof.
+  intros s H. unfold strip_ws.
+  assert (forall l, (forall c, In c l -> is_ws c = false) -> lstrip_ws l = l) as X.
+  { intros l Hl. destruct l as [|c t]; [reflexivity|]. simpl. rewrite Hl by (left; reflexivity). reflexivity. }
+  rewrite (X s H). rewrite X; [apply rev_involutive|].
+  intros c I. apply H. apply in_rev. exact I.
+Qed.
+
+Lemma all_digits_forall : forall s, all_digits s = true -> forall c, In c s -> is_digit c = true.
+Proof. intros s H. apply forallb_forall. exact H. Qed.
+
+(* a spec "ds-de" built from digit strings is its own stripped form *)
+Lemma spec_shape : forall ds de, all_digits ds = true -> all_digits de = true ->
+  let b := ds ++ DASH :: de in
+  split_on COMMA b = [b] /\ parse_spec b = Some (ds, de).
+Proof.
+  intros ds de Hs He b.
+  assert (forall c, In c b -> is_digit c = true \/ c = DASH) as Hb.
+  { intros c I. unfold b in I. apply in_app_or in I as [I|[I|I]].
+    - left. exact (all_digits_forall ds Hs c I).
+    - right. symmetry. exact I.
+    - left. exact (all_digits_forall de He c I). }
+  split.
+  - apply split_no_delim. intros c I. destruct (Hb c I) as [D| ->]; [apply digit_facts; exact D|reflexivity].
+  - unfold parse_spec. rewrite strip_ws_nows.
+    + unfold b. rewrite partition_digits; [rewrite Hs, He; reflexivity|assumption|].
+      intros c D. apply digit_facts. exact D.
+    + intros c I. destruct (Hb c I) as [D| ->]; [apply digit_facts; exact D|reflexivity].
+Qed.
+
+Lemma header_shape : forall rest,
+  split_unit (BYTES ++ EQ :: rest) = (BYTES, rest) /\
+  str_eqb (map lower_ascii (strip_ws BYTES)) BYTES = true.
+Proof. intros. split; reflexivity. Qed.
+
+Lemma get_ranges_one_spec : forall ds de cl,
+  all_digits ds = true -> all_digits de = true ->
+  get_ranges (Some (BYTES ++ EQ :: ds ++ DASH :: de)) cl =
+  match ranges_loop cl [ds ++ DASH :: de] [] with
+  | RList l => RList l
+  | r => r
+  end.
+Proof.
+  intros ds de cl Hs He. unfold get_ranges.
+  change (BYTES ++ EQ :: ds ++ DASH :: de) with (98%N :: ([121; 116; 101; 115]%N ++ EQ :: ds ++ DASH :: de)).
+  cbv zeta.
+  change (98%N :: ([121; 116; 101; 115]%N ++ EQ :: ds ++ DASH :: de)) with (BYTES ++ EQ :: ds ++ DASH :: de).
+  destruct (header_shape (ds ++ DASH :: de)) as [-> E]. simpl fst. simpl snd. rewrite E. simpl negb. cbv iota.
+  destruct (spec_shape ds de Hs He) as [-> Hp].
+  simpl ranges_loop. rewrite Hp.
+  destruct (isnil ds); simpl.
+  - destruct (isnil de); [reflexivity|]. destruct (int_of de) as [n|]; [|reflexivity].
+    destruct ((n =? 0) || (cl =? 0)); reflexivity.
+  - destruct (int_of ds) as [a|]; [|reflexivity].
+    destruct (if isnil de then Some (cl - 1) else int_of de) as [b|]; [|reflexivity].
+    destruct (a >=? cl); [reflexivity|]. destruct (b <? a); reflexivity.
+Qed.
+
+(* "bytes=a-b": bytes a..min(b, len-1) *)
+Theorem range_closed_exact : forall ds de a b cl,
+  all_digits ds = true -> all_digits de = true ->
+  int_of ds = Some a -> int_of de = Some b -> a <= b -> a < cl ->
+  get_ranges (Some (BYTES ++ EQ :: ds ++ DASH :: de)) cl = RList [(a, Z.min b (cl - 1) + 1)].
+Proof.
+  intros ds de a b cl Hs He Ha Hb Hab Hcl.
+  rewrite get_ranges_one_spec by assumption.
+  destruct (spec_shape ds de Hs He) as [_ Hp]. simpl ranges_loop. rewrite Hp.
+  assert (isnil ds = false) as N1 by (destruct ds; [discriminate|reflexivity]).
+  assert (isnil de = false) as N2 by (destruct de; [discriminate|reflexivity]).
+  rewrite N1, N2, Ha, Hb. simpl negb. cbv iota.
+  destruct (a >=? cl) eqn:E1; [lia|]. destruct (b <? a) eqn:E2; [lia|]. reflexivity.
+Qed.
+
+(* "bytes=a-": from a to the end *)
+Theorem range_open_exact : forall ds a cl,
+  all_digits ds = true -> int_of ds = Some a -> a < cl ->
+  get_ranges (Some (BYTES ++ EQ :: ds ++ [DASH])) cl = RList [(a, cl)].
+Proof.
+  intros ds a cl Hs Ha Hcl.
+  rewrite (get_ranges_one_spec ds [] cl Hs eq_refl).
+  destruct (spec_shape ds [] Hs eq_refl) as [_ Hp]. simpl ranges_loop. rewrite Hp.
+  assert (isnil ds = false) as N1 by (destruct ds; [discriminate|reflexivity]).
+  rewrite N1, Ha. simpl.
+  destruct (a >=? cl) eqn:E1; [lia|]. destruct (cl - 1 <? a) eqn:E2; [lia|].
+  unfold add_unique. simpl. repeat f_equal. lia.
+Qed.
+
+(* "bytes=-n": the last n bytes (the whole file when n exceeds its length) *)
+Theorem range_suffix_exact : forall de n cl,
+  all_digits de = true -> int_of de = Some n -> 0 < n -> 0 < cl ->
+  get_ranges (Some (BYTES ++ EQ :: DASH :: de)) cl = RList [(Z.max (cl - n) 0, cl)].
+Proof.
+  intros de n cl He Hn Hn0 Hcl.
+  pose proof (get_ranges_one_spec [] de cl eq_refl He) as G.
+  change ([] ++ DASH :: de) with (DASH :: de) in G. rewrite G. clear G.
+  destruct (spec_shape [] de eq_refl He) as [_ Hp]. simpl ranges_loop.
+  change ([] ++ DASH :: de) with (DASH :: de) in Hp. rewrite Hp.
+  assert (isnil de = false) as N2 by (destruct de; [discriminate|reflexivity]).
+  simpl. rewrite N2, Hn.
+  destruct ((n =? 0) || (cl =? 0)) eqn:E; [lia|]. reflexivity.
+Qed.
+
+(* an unsatisfiable first position is answered with the empty list (416), a reversed spec and a
+   non-numeric spec make the header void *)
+Theorem range_beyond_416 : forall ds de a cl,
+  all_digits ds = true -> all_digits de = true -> int_of ds = Some a -> cl <= a ->
+  get_ranges (Some (BYTES ++ EQ :: ds ++ DASH :: de)) cl = RList [].
+Proof.
+  intros ds de a cl Hs He Ha Hcl.
+  rewrite get_ranges_one_spec by assumption.
+  destruct (spec_shape ds de Hs He) as [_ Hp]. simpl ranges_loop. rewrite Hp.
+  assert (isnil ds = false) as N1 by (destruct ds; [discriminate|reflexivity]).
+  rewrite N1, Ha. simpl negb. cbv iota.
+  assert (exists stop, (if isnil de then Some (cl - 1) else int_of de) = Some stop) as [stop ->].
+  { destruct (isnil de) eqn:Ee; [eexists; reflexivity|].
+    destruct (int_of_digits de (isnil_false _ _ Ee) He) as [z [-> _]]. eexists; reflexivity. }
+  destruct (a >=? cl) eqn:E1; [reflexivity|lia].
 Qed.
